@@ -68,11 +68,29 @@ Definition check_handler (ops : list op) (cfg : config) (obs : list (option (opt
 
 Definition check_case (c : case) : bool := forallb2 (check_handler (k_ops c)) (k_handlers c) (k_obs c).
 
-(* constructors used by the harness *)
+(* constructors used by the harness (short names keep the generated shards small) *)
 Definition fct (isfun hasf : bool) (obj : oQ) (viol : option (list (option (list Q)))) : facet :=
   {| f_isfun := isfun; f_hasf := hasf; f_obj := obj; f_viol := viol |}.
+Definition qd (n : Z) (k : N) : Q := Qmake n (Pos.shiftl 1%positive k).   (* n / 2^k *)
+Definition na : option (list Q) := None.                       (* absent violation array *)
+Definition ar (l : list Q) : option (list Q) := Some l.
+Definition v0 : option (list (option (list Q))) := None.        (* constraint_info is None *)
+Definition vv (b l n : option (list Q)) : option (list (option (list Q))) := Some [b; l; n].
+Definition ff (o : Q) (v : option (list (option (list Q)))) : facet := fct true true (Some o) v.   (* finite objective *)
+Definition fn (v : option (list (option (list Q)))) : facet := fct true true None v.               (* NaN objective *)
+Definition f0 (v : option (list (option (list Q)))) : facet := fct true false None v.              (* functions is None *)
+Definition gg : facet := fct false false None None.                                                 (* GradientResults *)
 Definition itm (id : nat) (u t : facet) : item := {| i_id := id; i_u := u; i_t := t |}.
 Definition evt (ty : Z) (src : nat) (hr ht : bool) (items : list item) : op :=
   Emit {| e_type := ty; e_src := src; e_has_results := hr; e_has_transformed := ht; e_items := items |}.
+Definition put (id : nat) (u : facet) : op := Put (Some (id, u)).
 Definition cfgc (w : what) (tol : option Q) (srcs : list nat) : config :=
   {| c_what := w; c_tol := tol; c_sources := srcs |}.
+Definition hu : option (option nat) := None.                    (* not observed *)
+Definition hn : option (option nat) := Some None.               (* nothing held *)
+Definition hs (n : nat) : option (option nat) := Some (Some n).
+Arguments qd n%Z k%N.
+Arguments itm id%nat u t.
+Arguments evt ty%Z src%nat hr ht items.
+Arguments put id%nat u.
+Arguments hs n%nat.
